@@ -276,9 +276,9 @@ macro_rules! impl_cache {
                 Q: core::hash::Hash + Eq + ?Sized,
             {
                 let (index, conflict) = self.key_to_hash.build_key(key);
-                self.store
-                    .get(&index, conflict)
-                    .and_then(|_| self.store.expiration(&index).map(|time| time.get_ttl()))
+                // Read the TTL through the reference we already hold: locking the shard a second
+                // time while still holding it deadlocks as soon as a writer waits in between.
+                self.store.get(&index, conflict).map(|v| v.ttl())
             }
 
             /// `max_cost` returns the max cost of the cache.
@@ -596,9 +596,9 @@ macro_rules! impl_async_cache {
                 Q: core::hash::Hash + Eq + ?Sized,
             {
                 let (index, conflict) = self.key_to_hash.build_key(key);
-                self.store
-                    .get(&index, conflict)
-                    .and_then(|_| self.store.expiration(&index).map(|time| time.get_ttl()))
+                // Read the TTL through the reference we already hold: locking the shard a second
+                // time while still holding it deadlocks as soon as a writer waits in between.
+                self.store.get(&index, conflict).map(|v| v.ttl())
             }
 
             /// `max_cost` returns the max cost of the cache.
